@@ -124,6 +124,9 @@ func facts(f *hc.Facts) {
 	f.Raw("/-- `.pts/.qts/.seq` selectors in functions that are not methods of internalState/channelState -/")
 	f.Raw("def boxRefsOutsideOwners : List String := " + leanStrList(foreignBoxRef))
 
+	// The marker skip in the conversion loops of the two applyPts callbacks (0 = continue).
+	mgr.SkipFacts(f)
+
 	// The apply callbacks of the pts/qts/channel boxes never return a non-nil error.
 	for _, fn := range []struct{ lean, name string }{
 		{"applyPtsReturnsNilOnly", "internalState.applyPts"},
@@ -700,7 +703,7 @@ func run(c *hc.Ctx) error {
 		mr.Evaluate(sc, nil)
 	}
 	for i, n := 0, c.N(400, 8000); i < n; i++ {
-		sc, plain := mgr.Gen(r, mgr.GenOptions{Channels: hc.Pick(r, 0, 1, 2), TooLong: r.Chance(20), MaxEntries: hc.Pick(r, 4, 8, 12)})
+		sc, plain := mgr.Gen(r, mgr.GenOptions{Channels: hc.Pick(r, 0, 1, 2), TooLong: r.Chance(20), MaxEntries: hc.Pick(r, 4, 8, 12), Affected: r.Chance(50)})
 		c.Count("manager.scenarios")
 		mr.Evaluate(sc, plain)
 	}
